@@ -101,6 +101,15 @@ CLAIMED = {
             "conversions (rounding ties excluded); forms where Python 3 and std.jsonnet differ (#o, # on 0, %s precision, %g digit "
             "count, key with positional values) are undecided and only required not to crash",
             "DESIGN.md §4 C12"),
+    "C10": ("TLA+ spec StdArrays (one operator per function from the stdlib documentation / std.jsonnet) evaluated by TLC on "
+            "enumerated calls with model-level laws; every call replayed through Jsonnet",
+            "TLC evaluates Call(c) for every call over arrays of length 0..3 (thorough 0..4) over a 9-value alphabet and a pool of "
+            "total, partial and type-changing user functions, and checks that Sort yields the stable ordered permutation and the "
+            "set laws; the implementation must return the same value or fail exactly when the definition fails, with and "
+            "without optional arguments",
+            "trusted: TLC, the transcription of the documented definitions in StdArrays.tla; undocumented argument shapes are "
+            "undecided (crash-freedom only); laziness is C03's subject",
+            "DESIGN.md §4 C10"),
 }
 
 NOT_YET = "specification module and binding not built yet in this round; see DESIGN.md §4 for the planned model"
